@@ -21,9 +21,11 @@ def table_for(edges, weights, massive, ext, D):
     return a
 
 
-def mc_case(name, edges, weights, masses, ext, D, sig, shifts, expect_jac=None, alpha=1.0):
+def mc_case(name, edges, weights, masses, ext, D, sig, shifts, expect_jac=None, alpha=1.0, flags=None):
+    """`flags`: the is_massive flags given to the graph (they steer the importance sampling only); default: an edge is flagged
+    massive iff a mass is supplied for it"""
     return dict(name=name, edges=edges, weights=weights, masses=masses, ext=ext, D=D, sig=sig, shifts=shifts,
-                expect_jac=expect_jac, alpha=alpha)
+                expect_jac=expect_jac, alpha=alpha, flags=flags if flags is not None else [m is not None for m in masses])
 
 
 def tadpole_value(nu, m, D):
@@ -107,7 +109,15 @@ def run(ctx):
                          [[1, 1], [1, 0], [1, 0], [0, 1], [0, 1]], [[0.0] * 4, [0.5, 0, 0.25, 0], [0.5, 0.25, 0.25, -0.5], [0.0] * 4, [0.25, 0, 0, 0.5]]))
     cases.append(mc_case("three-loop massive banana D=2", [(0, 1)] * 4, [0.9, 1.0, 1.1, 1.2], [1.0, 0.75, 1.25, 0.5], [0, 1], 2,
                          [[1, 0, 0], [0, 1, 0], [0, 0, 1], [1, 1, 1]], [[0.0, 0.0]] * 3 + [[0.5, -0.25]]))
-    treqs = [gen.graph_request(c["edges"], c["weights"], [m is not None for m in c["masses"]], c["ext"], c["D"]) for c in cases]
+    # the integrand is defined by the masses in edge_data, whatever the is_massive flags of the graph say
+    pb = [0.75, -0.5, 0.25]
+    pbn = math.sqrt(sum(t * t for t in pb))
+    bub = 2 * math.pi ** 2 / pbn * math.atan(pbn / 2.0)
+    cases.append(mc_case("massive bubble m=1 with momentum, flagged massive D=3", [(0, 1), (0, 1)], [1.0, 1.0], [1.0, 1.0], [0, 1], 3,
+                         [[1], [1]], [Z3, pb], expect_jac=bub))
+    cases.append(mc_case("massive bubble m=1 with momentum, NOT flagged massive D=3", [(0, 1), (0, 1)], [1.0, 1.0], [1.0, 1.0], [0, 1], 3,
+                         [[1], [1]], [Z3, pb], expect_jac=bub, flags=[False, False]))
+    treqs = [gen.graph_request(c["edges"], c["weights"], c["flags"], c["ext"], c["D"]) for c in cases]
     tabs = run_harness(treqs)
     mreqs = []
     for c, t in zip(cases, tabs):
